@@ -127,3 +127,20 @@ VARIANTS += [
          [(IMPF, "        if sys.modules.get(mod_name) is module:\n            del sys.modules[mod_name]\n        raise", "        raise")],
          ("*", "_import"), ("C16",)),
 ]
+
+PPY = "src/jaqalpaq/parser/parser.py"
+RUNPY = "src/jaqalpaq/run/run.py"
+SLY = "src/jaqalpaq/parser/slyparse.py"
+VARIANTS += [
+    # reverting fix f20c39c at one entry point
+    fire("c16-parse-entry-without-recursion-guard",
+         [(PPY, "@nesting_guard\ndef parse_jaqal_string(", "def parse_jaqal_string(")],
+         ("C16.17", "parse_jaqal_string:recursion-guard"), ("C16",)),
+    fire("c16-run-entry-without-recursion-guard",
+         [(RUNPY, "@nesting_guard\ndef run_jaqal_circuit(", "def run_jaqal_circuit(")],
+         ("C16.17", "recursion-guard"), ("C16",)),
+    # reverting fix c45a6af
+    fire("c16-lexer-int-unguarded-handler-dropped",
+         [(SLY, "        except ValueError:\n            # Python refuses to convert digit strings beyond a length limit", "        except TypeError:\n            # Python refuses to convert digit strings beyond a length limit")],
+         ("C16.13", "JaqalLexer.INT:conversion-handler"), ("C16",)),
+]
